@@ -17,6 +17,14 @@ CLAIMED = {
    technique="symbolic print/parse round trip: abstract interpretation of each Display/ToString and FromStr pair over literal-piece + atom strings; exhaustive over enumeration variants",
    text="Every value codec found in the anchored files (19 types; Vcs::{to_field,from_field}; format_origin/parse_origin) is printed and parsed back inside the abstract interpreter: parse(print(v)) must be exactly {Ok(v)} for every enumeration variant and every Option-field combination of every record; pure enumerations must reject an unknown keyword and print distinct keywords. Enumerations are covered exhaustively, records per field position and separator.",
    note="Atoms = valid component strings (non-empty, no whitespace/syntax characters, not a keyword/prefix). ParsedVcs (regex + slicing) and parse_identity are free-text codecs and are listed as undecided in the evidence, not claimed."),
+ "C01": dict(level="proof", ref="4/C01",
+   technique="abstract interpretation: deb822 lexer transition table over all reachable modes x 131 character classes; token-cursor fixpoint of the parser and its entry points over all token-kind sequences with conservation/order/balance/progress monitors",
+   text="Structural proof obligations, all of which must discharge: (D1) every lexer cell returns a non-empty prefix split at a char boundary and continues with the exact suffix; (D2) on every path of the parser, for every token-kind sequence, each consumed token reaches builder.token unchanged, exactly once and in input order, nodes balance and finish() sees one root; (D3) Display writes text(); (D4) the caller's text reaches the lexer unmodified through all six entry points, strict returns Ok exactly when the error list is empty, tolerant returns the unfiltered list, the returned tree is the mutable root over the parse's green node. Together with rowan's contract this is the property.",
+   note="Trusted: rustc HIR/typeck, rowan (text() = concatenation of builder.token texts), str::find/split_at contracts, the hirai interpreter. Token texts are opaque to the parser: any other use of a token is reported as an escape from the cursor vocabulary."),
+ "C09": dict(level="proof", ref="4/C09",
+   technique="abstract interpretation: relation lexer per character class with a consumed-equals-appended monitor; token-cursor fixpoint of the relation parser (substvars on/off) and its five entry points over all token-kind sequences",
+   text="As C01 for the relationship-field reader: lexer literal arms print exactly the one character they consume, run arms append every consumed character, EOF yields None; the parser conserves tokens (including the direct pop in parse_entry), keeps order, balances nodes and makes progress in every loop for every token-kind sequence; strict = no errors with substvars disallowed; tolerant returns the unfiltered list; Entry/Relation readers return child nodes of the parsed tree; Display writes the syntax text.",
+   note="Trusted as C01; the look-ahead helper peek_past_ws is replaced by a summary (first kind outside {WHITESPACE, NEWLINE} from the top) that is validated by interpreting the helper on all token vectors of length <= 3."),
 }
 NA_REASON = "check not built yet (construction in progress; see DESIGN.md section 9 build order)"
 
